@@ -242,6 +242,28 @@ def body_solution(H, case, work):
     sol.to_hdf5(alone_path)
     alone = Solution.from_hdf5(alone_path)
     same_solution(H, "stand-alone file", alone, sol, expected)
+    # ---- the drive is written as it is when the solution is saved, whatever was serialized before -------
+    leaf = tdgl.Parameter(_drive_leaf, scale=1.0)
+    sol.applied_vector_potential = leaf * 2.0
+    sol.to_hdf5(work + "/drive1.h5")
+    back1 = Solution.from_hdf5(work + "/drive1.h5")
+    H.prove("an expression used as the drive round-trips", back1.applied_vector_potential == sol.applied_vector_potential)
+    leaf.kwargs["scale"] = 3.0  # the user changes the drive in place ...
+    sol.to_hdf5(work + "/drive2.h5")  # ... and saves again
+    back2 = Solution.from_hdf5(work + "/drive2.h5")
+    H.prove("a drive changed in place between two saves is written as it is at the second save", back2.applied_vector_potential == sol.applied_vector_potential)
+    H.prove("... and differs from the one written first", not (back2.applied_vector_potential == back1.applied_vector_potential))
+    pt = (np.array([0.3, -0.2]), np.array([0.2, 0.4]), np.array([0.0, 0.0]))
+    H.prove("... and evaluates like the current drive", bool(np.allclose(np.asarray(back2.applied_vector_potential(*pt), dtype=float), np.asarray(sol.applied_vector_potential(*pt), dtype=float), rtol=1e-12, atol=0)))
+    re1 = Solution.from_hdf5(work + "/drive1.h5")
+    re1.applied_vector_potential.left.kwargs["scale"] = 5.0  # the same history starting from a loaded solution
+    re1.to_hdf5(work + "/drive3.h5")
+    back3 = Solution.from_hdf5(work + "/drive3.h5")
+    H.prove("a loaded drive changed in place and saved again is written as it is then", back3.applied_vector_potential == re1.applied_vector_potential and not (back3.applied_vector_potential == back1.applied_vector_potential))
+
+
+def _drive_leaf(x, y, z, *, scale):
+    return scale * np.stack([-0.5 * np.asarray(y, dtype=float), 0.5 * np.asarray(x, dtype=float), np.zeros(len(np.atleast_1d(x)))], axis=1)
 
 
 def same_plain(want, have):
